@@ -6,7 +6,7 @@
      code 100 + m                  : matches except for float fields written with an exponent part whose bits differ
      code 999                      : no configuration matches *)
 From Coq Require Import ZArith NArith List Bool String Ascii.
-From OG Require Import C06.Model C06.ModelStream.
+From OG Require Import C06.Model C06.ModelStream C06.ModelWriter.
 Import ListNotations.
 Open Scope Z_scope.
 
@@ -210,6 +210,56 @@ Fixpoint hcodes_from (k : nat) (cs : list hcase) : list (nat * Z) :=
   | c :: r => let x := hclassify c in if x =? 0 then hcodes_from (S k) r else (k, x) :: hcodes_from (S k) r
   end.
 Definition hcodes := hcodes_from 0.
+
+(* ------------------------------------------------------------------------------------------------ *)
+(* the points writer's per-row glue: the lines of a request go through the parser model and then, row by row against the
+   evolving schema, through writer_rows; per row the reported error, whether the row is handed on, and the row handed on
+   must be the observed ones.  code = parser mask + 1000 * (1 if a field named time is dropped silently) + 2000 * (1 if a
+   row is handed on without its tag named time); 999 = nothing matches *)
+Definition wobs := (bool * bool * option irow)%type.                (* dropped, error reported, row handed on *)
+Definition wcase := (bytes * list wobs)%type.
+
+Definition cmp_wout (o : wout) (w : wobs) : Z :=
+  let '(dropped, err, ir) := w in
+  if negb (Bool.eqb (wo_err o) err) then 2 else
+  match wo_row o, ir with
+  | None, None => if dropped then 0 else 2
+  | Some r, Some i => if dropped then 2 else cmp_row r i
+  | _, _ => 2
+  end.
+
+Definition cmp_wcase (c : cfg) (wc : wcfg) (cs : wcase) : Z :=
+  let '(body, obs) := cs in
+  match accept_block dec2f_exact c 1 body with
+  | Err => 2
+  | Ok rows => cmp_list cmp_wout (snd (writer_rows wc [] rows)) obs
+  end.
+
+Definition wcfg_of (w : Z) : wcfg := {| w_timefield := Z.testbit w 0; w_timetag := Z.testbit w 1 |}.
+
+Fixpoint first_wmask (ws ms : list Z) (cs : wcase) : option Z :=
+  match ws with
+  | [] => None
+  | w :: wr =>
+      match (fix go (ms : list Z) : option Z :=
+               match ms with
+               | [] => None
+               | m :: r => if cmp_wcase (cfg_of_mask m) (wcfg_of w) cs =? 0 then Some (m + 1000 * w) else go r
+               end) ms with
+      | Some x => Some x
+      | None => first_wmask wr ms cs
+      end
+  end.
+
+Definition wclassify (cs : wcase) : Z :=
+  match first_wmask [0; 1; 2; 3] [0; 1] cs with Some x => x | None => 999 end.
+
+Fixpoint wcodes_from (k : nat) (cs : list wcase) : list (nat * Z) :=
+  match cs with
+  | [] => []
+  | c :: r => let x := wclassify c in if x =? 0 then wcodes_from (S k) r else (k, x) :: wcodes_from (S k) r
+  end.
+Definition wcodes := wcodes_from 0.
 
 (* helpers for the generated case files (everything in Z scope) *)
 Definition B (l : list Z) : bytes := map Z.to_N l.
